@@ -209,10 +209,19 @@ func c02Exec(ctx *core.Ctx, c c02Case) {
 		pre += "RCPT TO:<r2@x.test>\r\n"
 		nrcpt = 2
 	}
-	pre += "DATA\r\n"
+	// glued: the client does not wait for the 354 - DATA, the message and what follows it arrive
+	// in one segment (half of the one-segment cases; decided by the case itself)
+	glue := c.Seg == "one" && c.Stall == 0 && !c.Pause && core.HashStr(fmt.Sprintf("%q|%d|%v|%d|%s", c.Body, c.Read, c.Reject, c.Limit, c.Mode))%2 == 0
+	if !glue {
+		pre += "DATA\r\n"
+	}
 	p.SendStr(pre)
-	head, err := expect(p, 4+nrcpt)
-	if err != nil || head[len(head)-1].Code != 354 {
+	nhead := 4 + nrcpt
+	if glue {
+		nhead--
+	}
+	head, err := expect(p, nhead)
+	if err != nil || (!glue && head[len(head)-1].Code != 354) {
 		p.Close()
 		rig.Finish()
 		if isWatchdog(err) {
@@ -258,6 +267,10 @@ func c02Exec(ctx *core.Ctx, c c02Case) {
 			return
 		}
 	}
+	if glue {
+		full = append([]byte("DATA\r\n"), full...)
+		ctx.Add("messages_glued_to_the_DATA_command", 1)
+	}
 	switch c.Seg {
 	case "one":
 		p.Send(full)
@@ -276,6 +289,10 @@ func c02Exec(ctx *core.Ctx, c c02Case) {
 	p.SendStr("QUIT\r\n")
 	tail, err := p.ReadAll()
 	tail = append(early, tail...) // (negative) replies that arrived during the pause
+	if glue && len(tail) > 0 && tail[0].Code == 354 {
+		head = append(head, tail[0])
+		tail = tail[1:]
+	}
 	p.Close()
 	fin := rig.Finish()
 	if isWatchdog(err) || !fin {
